@@ -359,8 +359,8 @@ func (damageEngine) Execute(p *Plan) *RunResult {
 				// flip a bit in the length fields
 				r := recs[rng.Intn(len(recs))]
 				bit := rng.Intn(48)
-				if bit == 47 || (bit >= 36 && bit < 47) {
-					bit = rng.Intn(36) // keep the claimed value size below 1 MiB here (C19 covers the rest)
+				if (bit == 47 || (bit >= 36 && bit < 47)) && rng.Intn(4) != 0 {
+					bit = rng.Intn(36) // mostly keep the claimed value size below 1 MiB here (C19 covers the rest)
 				}
 				pos := r.Off + int64(bit/8)
 				mk("lenflip", fmt.Sprintf("%s: length-field bit %d of the record at %d flipped", sn.Path, bit, r.Off), func(f map[string]*FileState) {
@@ -370,7 +370,19 @@ func (damageEngine) Execute(p *Plan) *RunResult {
 			case k == 4:
 				n := 1 + rng.Intn(600)
 				g := boundedGarbage(rng, n, 1<<20)
-				mk("garbage", fmt.Sprintf("%s + %d garbage bytes", sn.Path, n), func(f map[string]*FileState) { setBytes(f, sn.Path, append(cur, g...)) })
+				what := "garbage"
+				if rng.Intn(3) == 0 {
+					// raw bytes: the length fields are whatever the garbage says (3 of 4 claim more than any
+					// Put could have written); all 0xFF in 1 of 4 of these
+					what = "raw-garbage"
+					rng.Read(g)
+					if rng.Intn(4) == 0 {
+						for i := range g {
+							g[i] = 0xFF
+						}
+					}
+				}
+				mk(what, fmt.Sprintf("%s + %d %s bytes", sn.Path, n, what), func(f map[string]*FileState) { setBytes(f, sn.Path, append(cur, g...)) })
 			case k == 5:
 				// a well-formed record after a damaged one
 				bad := encodeRecordIndep([]byte("ghost"), []byte("never written"), false)
